@@ -161,8 +161,10 @@ func (pass *AnonymousEnumToExplicitType) processAnonymousEnum(pkg string, parent
 	values := make([]ast.EnumValue, 0, len(def.Values))
 	for _, val := range def.Values {
 		values = append(values, ast.EnumValue{
-			Type:  val.Type,
-			Name:  tools.UpperCamelCase(val.Name),
+			Type: val.Type,
+			// the names are left as they are: the passes and jennies that format them need the
+			// sign of `-1` and the characters that tell `a_b` from `a-b`.
+			Name:  val.Name,
 			Value: val.Value,
 		})
 	}
